@@ -17,6 +17,7 @@ type schema struct {
 	msgs   []protoreflect.MessageDescriptor
 	index  map[protoreflect.FullName]int
 	byName map[string]int // name relative to the package
+	big    int            // generator knob: upper bound of list/map lengths (0 = default)
 }
 
 func loadSchema() *schema {
